@@ -9,6 +9,7 @@ import (
 	"raven/internal/blobstorage"
 	"raven/internal/db"
 	"raven/internal/models"
+	"raven/internal/server/utils"
 )
 
 // ServerDeps defines the dependencies that selection handlers need from the server
@@ -42,7 +43,7 @@ func HandleSelect(deps ServerDeps, conn net.Conn, tag string, parts []string, st
 	state.IsRoleMailbox = false
 	state.SelectedRoleMailboxID = 0
 
-	folder := strings.Trim(parts[2], "\"")
+	folder := utils.ParseQuotedString(parts[2])
 	state.SelectedFolder = folder
 
 	// Check if this is a role mailbox path (e.g., "Roles/ceo@openmail.lk/INBOX")
